@@ -21,6 +21,12 @@ RECURSIVE IterFrom(_,_)
 IterFrom(sp, d) == LET nx == NextSp(sp, d) IN <<d>> \o (IF nx.ok THEN IterFrom(sp, nx.d) ELSE <<>>)
 IterSeq(sp) == IterFrom(sp, FirstSp(sp))
 
+\* a selected choice one of whose candidates contains a placeholder the filter rejects
+NestedFiltered(t, w) ==
+  \E p \in Placeholders(t) : IsChoice(p) /\ W(w, p) /\
+     \E c \in 1..Len(p.cands) : \E q \in Placeholders(p.cands[c]) : ~W(w, q)
+Bad == <<"!", 0, <<>>>>
+
 DnaLaws(i, t, w, sp, f, dist, x) ==
   IF ~\E d \in DOMAIN f : f[d] = x.tree THEN Fail(i, "harness_tree_not_valid", x.tree) ELSE
   LET d == CHOOSE dd \in DOMAIN f : f[dd] = x.tree
@@ -29,8 +35,12 @@ DnaLaws(i, t, w, sp, f, dist, x) ==
   \o SeqIf(~OnlyFilteredLeft(w, x.decoded), Fail(i, "placeholder_left", <<x.tree, x.decoded>>))
   \o SeqIf(x.is_det # Deterministic(x.decoded), Fail(i, "is_deterministic_flag", <<x.tree, x.is_det>>))
   \o SeqIf(x.decoded_again # x.decoded \/ ~x.twice_eq, Fail(i, "decode_twice_differs", <<x.tree, x.decoded_again>>))
-  \o SeqIf(dist /\ x.encoded # x.tree, Fail(i, "encode_not_inverse", <<x.tree, x.encoded>>))
-  \o SeqIf(x.redecoded # x.decoded, Fail(i, "decode_of_encode_differs", <<x.tree, x.encoded, x.redecoded>>))
+  \* encode raising although the value came out of decode, in the one situation where today's encode is known
+  \* to ignore the filter: a rejected placeholder left inside a candidate of a selected choice
+  \o LET nested == x.encoded = Bad /\ w # "all" /\ NestedFiltered(t, w) /\ ~Deterministic(x.decoded) IN
+     SeqIf(nested, Fail(i, "encode_raises_on_filtered_placeholder_inside_selected_choice", <<x.tree, x.decoded>>))
+     \o SeqIf(~nested /\ dist /\ x.encoded # x.tree, Fail(i, "encode_not_inverse", <<x.tree, x.encoded>>))
+     \o SeqIf(~nested /\ x.redecoded # x.decoded, Fail(i, "decode_of_encode_differs", <<x.tree, x.encoded, x.redecoded>>))
   \o SeqIf(x.materialized # x.decoded, Fail(i, "materialize_differs", <<x.tree, x.materialized>>))
   \o SeqIf(x.json_after_decode # x.json_before, Fail(i, "template_modified_by_decode", x.tree))
   \o SeqIf(x.json_after_encode # x.json_before, Fail(i, "template_modified_by_encode", x.tree))
